@@ -187,6 +187,8 @@ def install_functional(t):
     t["functools.lru_cache"] = lru_cache
     t["functools.cache"] = lambda I, fv, args, kwargs, node: MemoV(args[0]) if args else fv
     t["functools.partial"] = partial
+    t["contextlib.suppress"] = lambda I, fv, args, kwargs, node: PartialV("suppress", None, tuple(args), ())
+    t["contextlib.nullcontext"] = lambda I, fv, args, kwargs, node: PartialV("nullcontext", None, tuple(args), ())
     t["functools.reduce"] = reduce
     t["operator.itemgetter"] = itemgetter
     t["operator.attrgetter"] = attrgetter
@@ -787,6 +789,7 @@ def b_tuple(I, fv, args, kwargs, node):
 
 def b_zip(I, fv, args, kwargs, node):
     lists = []
+    strict = _kwclean(kwargs).get("strict")
     for a in args:
         items = _list_items(I, a)
         if items is None:
@@ -796,6 +799,8 @@ def b_zip(I, fv, args, kwargs, node):
             else:
                 return Unk(f"zip({', '.join(I.tag(x) for x in args)})")
         lists.append(items)
+    if strict is not None and I.truth(strict) and len({len(x) for x in lists}) > 1:
+        I.raise_("ValueError", node, note="zip() arguments have different lengths (strict)")
     return IterV(tuple(Tup(t) for t in zip(*lists)))
 
 
@@ -806,7 +811,13 @@ def b_enumerate(I, fv, args, kwargs, node):
         items = I.iterate(v, node)
         return IterV(tuple(Tup((Num(Poly.sym(f"idx({I.tag(x)})"), True) if len(items) == 1 and isinstance(x, Unk) else Const(i), x))
                            for i, x in enumerate(items)))
-    return IterV(tuple(Tup((Const(i), x)) for i, x in enumerate(items)))
+    start = 0
+    st = _kwclean(kwargs).get("start", args[1] if len(args) > 1 else None)
+    if st is not None:
+        start = I.const_int(st)
+        if start is None:
+            return I.ext_call(fv, args, kwargs, node)
+    return IterV(tuple(Tup((Const(i), x)) for i, x in enumerate(items, start)))
 
 
 def b_map(I, fv, args, kwargs, node):
